@@ -1,6 +1,7 @@
 /-
   C10 helper lemmas: the `link` / `addEdge` mutators and their folds.
 -/
+import Std.Data.String.ToInt
 import XgiModel.C10.Convert
 
 namespace Xgi.C10
@@ -1095,6 +1096,56 @@ structure AWF (a : ANet) : Prop where
   n : ∀ n ∈ a.net.nodes, AttrsWF (a.nattr n)
   e : ∀ e ∈ a.net.edgeIds, AttrsWF (a.eattr e)
 
+/-! ### the concrete string casts of the driver (`strCast`, `uncastInt`, `uncastStr`) -/
+
+/-- `int(str(i)) == i` -/
+theorem toInt?_toString (i : Int) : (toString i).toInt? = some i := by
+  simp only [Int.toString_eq_repr, Int.toInt?_repr]
+
+theorem uncastInt_strCast (i : Int) : uncastInt (strCast (.int i)) = .ok (.int i) := by
+  simp only [uncastInt, strCast, toInt?_toString]
+
+theorem uncastStr_strCast (s : String) : uncastStr (strCast (.str s)) = .ok (.str s) := rfl
+
+/-- the reader's cast undoes `str` on an ID of the type the reader is told to expect -/
+theorem uncast_strCast (t : IdType) (x : PyId) (h : t.Holds x) : t.uncast (strCast x) = .ok x := by
+  cases t
+  · obtain ⟨i, rfl⟩ := h; exact uncastInt_strCast i
+  · obtain ⟨s, rfl⟩ := h; exact uncastStr_strCast s
+
+/-- a member list whose IDs all have one type can be sorted -/
+theorem sortIds_isSome_of_holds (t : IdType) (l : List PyId) (h : ∀ x ∈ l, t.Holds x) : (sortIds l).isSome = true := by
+  unfold sortIds
+  split
+  · rfl
+  · cases t
+    · have : l.all (fun x => (atomInt? x).isSome) = true := by
+        rw [List.all_eq_true]; intro x hx; obtain ⟨i, rfl⟩ := h x hx; rfl
+      simp only [this, if_true, Option.isSome_some]
+    · have : l.all (fun x => (atomStr? x).isSome) = true := by
+        rw [List.all_eq_true]; intro x hx; obtain ⟨i, rfl⟩ := h x hx; rfl
+      simp only [this, if_true]
+      split <;> rfl
+
+/-- colliding string casts are refused with the library's error (`XGIError`); restates the two guards of
+    `toHypergraphDict` (kept as a lemma, not a property theorem) -/
+theorem hypergraphDict_collision (cast : PyId → String) (a : ANet)
+    (h : ¬ (a.net.nodes.map cast).Nodup ∨ ¬ (a.net.edgeIds.map cast).Nodup) :
+    toHypergraphDict cast a = .error .lib := by
+  unfold toHypergraphDict
+  by_cases h1 : (a.net.nodes.map cast).Nodup
+  · rcases h with h | h
+    · exact absurd h1 h
+    · simp [h1, h]
+  · simp [h1]
+
+/-- no conversion from an undirected network to a directed one is offered (`XGIError`); definitional -/
+theorem ofClass_dhg_of_undirected (a : ANet) : ofClass (.inl a) .dhg = .error .lib := rfl
+
+/-- a DiHypergraph comes back from HIF as a DiHypergraph; definitional (`match d.ntype`) -/
+theorem hif_class_directed (a : ADiNet) : ∃ r, fromHif (toHifDi a) = .inr r :=
+  ⟨fromHifD (toHifDi a), by unfold fromHif; simp [toHifDi]⟩
+
 /-! ### HIF -/
 
 theorem addNode_of_mem (h : Net) (n : PyId) (hn : n ∈ h.nodes) : addNode h n = h := by
@@ -1248,6 +1299,46 @@ theorem hifNodeStep_eq (a : ANet) (n : PyId) (av : Attrs) :
     (if n ∈ a.net.nodes then aSetNodeAttr a n av else aAddNode a n av) = aAddNode a n av := by
   unfold aSetNodeAttr aAddNode; split <;> rfl
 
+theorem upd_upd {κ β : Type} [DecidableEq κ] (f : κ → β) (k : κ) (x y : β) : upd (upd f k x) k y = upd f k y := by
+  funext j; simp only [upd_apply]; split <;> rfl
+
+theorem upd_self {κ β : Type} [DecidableEq κ] (f : κ → β) (k : κ) : upd f k (f k) = f := by
+  funext j; simp only [upd_apply]; split
+  · rename_i h; rw [h]
+  · rfl
+
+/-- the repaired node-record step of `from_hif_dict` (bare `add_node` when absent, then
+    `set_node_attributes`) is the step of the unrepaired code with `**attr` read as a dict -/
+theorem hifNodeRec_eq (a : ANet) (n : PyId) (av : Attrs) : hifNodeRec a n av = aAddNode a n av := by
+  unfold hifNodeRec
+  split
+  · rename_i hn; unfold aSetNodeAttr aAddNode; simp only [hn, if_true]
+  · rename_i hn
+    unfold aSetNodeAttr aAddNode
+    simp only [hn, if_false, addNode, mem_ins, true_or, if_true, upd_apply, attrs_update_nil_right, upd_upd]
+
+/-- the repaired edge-record step of `from_hif_dict` (bare `add_edge` when absent, then
+    `set_edge_attributes`) is the step of the unrepaired code with `**attr` read as a dict -/
+theorem hifEdgeRec_eq (a : ANet) (e : PyId) (av : Attrs) :
+    hifEdgeRec a e av = if e ∈ a.net.edgeIds then aSetEdgeAttr a e av else aAddEdge a e [] av := by
+  unfold hifEdgeRec
+  split
+  · rfl
+  · rename_i he
+    have h1 : e ∈ (addEdge a.net e []).edgeIds := by
+      rw [addEdge_fresh _ _ _ he]; simp [Net.edgeIds]
+    unfold aSetEdgeAttr aAddEdge
+    simp only [he, if_false, h1, if_true, upd_apply, attrs_update_nil_right, upd_upd]
+
+/-- the repaired node step of `from_hypergraph_dict` (`add_node(idx)` then `set_node_attributes`) -/
+theorem hdNodeRec_eq (a : ANet) (n : PyId) (av : Attrs) : hdNodeRec a n av = aAddNode a n av := by
+  unfold hdNodeRec
+  by_cases hn : n ∈ a.net.nodes
+  · unfold aSetNodeAttr aAddNode
+    simp only [hn, if_true, attrs_update_nil_right, upd_self]
+  · unfold aSetNodeAttr aAddNode
+    simp only [hn, if_false, addNode, mem_ins, true_or, if_true, upd_apply, attrs_update_nil_right, upd_upd]
+
 theorem isolated_iff (h : Net) (n : PyId) : isolated h n = true ↔ ¬ ∃ e, Inc h n e := by
   unfold isolated Inc
   simp only [List.all_eq_true, decide_eq_true_eq]
@@ -1296,13 +1387,12 @@ theorem cls_fromHifU (d : Hif) : (fromHifU d).cls = .hg := by
   unfold fromHifU
   simp only
   refine foldl_inv (fun (a : ANet) => a.cls = Cls.hg) _ (fun a r ha => ?_) _ _ ?_
-  · split
+  · rw [hifEdgeRec_eq]
+    split
     · unfold aSetEdgeAttr; split <;> exact ha
     · rw [cls_aAddEdge]; exact ha
   refine foldl_inv (fun (a : ANet) => a.cls = Cls.hg) _ (fun a r ha => ?_) _ _ ?_
-  · split
-    · unfold aSetNodeAttr; split <;> exact ha
-    · rw [cls_aAddNode]; exact ha
+  · rw [hifNodeRec_eq, cls_aAddNode]; exact ha
   refine foldl_inv (fun (a : ANet) => a.cls = Cls.hg) _ (fun a r ha => ?_) _ _ ?_
   · exact ha
   · rfl
@@ -1709,6 +1799,155 @@ theorem hasSimplex_congr (es : List (PyId × List PyId)) {ms ms' : List PyId} (h
   rintro ⟨q, hq, h1⟩
   exact ⟨q, hq, fun z => (h1 z).trans (h z)⟩
 
+/-! ### a simplicial complex as xgi stores it, read by `SimplicialComplex(H)` -/
+
+/-- what `SimplicialComplex.add_simplex` guarantees of the stored simplices: none is empty and no two have the
+    same member set -/
+structure SCWF (h : Net) : Prop where
+  ne : ∀ p ∈ h.edges, p.2 ≠ []
+  distinct : ∀ p ∈ h.edges, ∀ q ∈ h.edges, sameSet p.2 q.2 = true → p = q
+
+/-- closed under taking faces (`_subfaces`, at least two nodes), up to `has_simplex` -/
+def SCClosed (h : Net) : Prop := ∀ p ∈ h.edges, ∀ f ∈ subfaces p.2, hasSimplex h.edges f = true
+
+theorem hasSimplex_append (es es' : List (PyId × List PyId)) (ms : List PyId) :
+    hasSimplex (es ++ es') ms = (hasSimplex es ms || hasSimplex es' ms) := by
+  unfold hasSimplex; rw [List.any_append]
+
+theorem sameSet_symm (x y : List PyId) : sameSet x y = sameSet y x := by
+  unfold sameSet; rw [Bool.and_comm]
+
+/-- the edge loop of `add_simplices_from` keeps every edge under its own ID and members, in order, when no
+    edge is empty and no member set occurs twice (nor is present before) -/
+theorem edgeStage_kept (es : List (PyId × List PyId)) (g : PyId → Attrs) (s : SCState)
+    (hk : (s.a.net.edgeIds ++ es.map (·.1)).Nodup)
+    (hm : ∀ p ∈ es, p.2.Nodup ∧ ∀ x ∈ p.2, x ∈ s.a.net.nodes)
+    (hne : ∀ p ∈ es, p.2 ≠ [])
+    (hdist : ∀ p ∈ es, hasSimplex s.a.net.edges p.2 = false)
+    (hpair : es.Pairwise (fun p q => sameSet p.2 q.2 = false)) :
+    (es.foldl (fun s p => scStep s p.1 p.2 (g p.1)) s).a.net.edges = s.a.net.edges ++ es := by
+  induction es generalizing s with
+  | nil => simp
+  | cons p t ih =>
+    have hp : p.1 ∉ s.a.net.edgeIds := by
+      intro hp
+      rw [List.nodup_append] at hk
+      exact hk.2.2 _ hp p.1 (by simp) rfl
+    rw [List.pairwise_cons] at hpair
+    obtain ⟨hpd, hpn⟩ := hm p (by simp)
+    have h2 : hasSimplex s.a.net.edges p.2 = false := hdist p (by simp)
+    simp only [List.foldl_cons]
+    rw [scStep_add s p.1 p.2 _ (hne p (by simp)) h2 hp hpn hpd]
+    have := ih
+      { a := { s.a with net := { nodes := s.a.net.nodes, edges := s.a.net.edges ++ [(p.1, p.2)] },
+                        eattr := upd s.a.eattr p.1 (Attrs.update [] (g p.1)) },
+        uid := bump s.uid p.1, faces := s.faces ++ subfaces p.2 }
+      (by simpa [Net.edgeIds] using hk) (fun q hq => hm q (by simp [hq])) (fun q hq => hne q (by simp [hq]))
+      (fun q hq => by
+        show hasSimplex (s.a.net.edges ++ [(p.1, p.2)]) q.2 = false
+        rw [hasSimplex_append, hdist q (by simp [hq]), Bool.false_or]
+        simp only [hasSimplex, List.any_cons, List.any_nil, Bool.or_false]
+        exact hpair.1 q hq)
+      hpair.2
+    rw [this]
+    simp
+
+theorem addFace_prefix (s : ANet × Nat) (f : List PyId) :
+    ∃ extra, (addFace s f).1.net.edges = s.1.net.edges ++ extra := by
+  unfold addFace
+  split
+  · exact ⟨[], by simp⟩
+  · simp only
+    unfold addEdge
+    split
+    · exact ⟨[], by simp⟩
+    · exact ⟨[_], rfl⟩
+
+theorem faceFold_prefix (faces : List (List PyId)) (s : ANet × Nat) :
+    ∃ extra, (faces.foldl addFace s).1.net.edges = s.1.net.edges ++ extra := by
+  induction faces generalizing s with
+  | nil => exact ⟨[], by simp⟩
+  | cons f t ih =>
+    simp only [List.foldl_cons]
+    obtain ⟨x1, h1⟩ := addFace_prefix s f
+    obtain ⟨x2, h2⟩ := ih (addFace s f)
+    exact ⟨x1 ++ x2, by rw [h2, h1, List.append_assoc]⟩
+
+/-- no face is added when every collected face is present already -/
+theorem faceFold_noop (faces : List (List PyId)) (s : ANet × Nat)
+    (h : ∀ f ∈ faces, hasSimplex s.1.net.edges f = true) : faces.foldl addFace s = s := by
+  induction faces with
+  | nil => rfl
+  | cons f t ih =>
+    simp only [List.foldl_cons]
+    rw [addFace_skip s f (Or.inr (h f (by simp)))]
+    exact ih (fun g hg => h g (by simp [hg]))
+
+/-- `SimplicialComplex(H)` for a source that is a stored simplicial complex (`SCWF`): every source edge is kept
+    under its own ID with its members and attributes, in order, before the automatically created faces; when the
+    source is closed under faces nothing is created at all -/
+theorem toSimplicialComplex_kept (src : ANet) (hw : AWF src) (hsc : SCWF src.net) :
+    (∃ extra, (toSimplicialComplex src).net.edges = src.net.edges ++ extra) ∧
+    (∀ e ∈ src.net.edgeIds, (toSimplicialComplex src).eattr e = src.eattr e) ∧
+    (SCClosed src.net → (toSimplicialComplex src).net.edges = src.net.edges) := by
+  obtain ⟨⟨w1, w2, w3⟩, wg, wn, we⟩ := hw
+  unfold toSimplicialComplex
+  simp only
+  obtain ⟨n1, n2, n3, n4, n5, n6, _⟩ := nodeFold_spec src.net.nodes src.nattr (emptyANet .sc) (by simpa [emptyANet, emptyNet] using w1)
+  generalize (src.net.nodes.foldl (fun a n => aAddNode a n (src.nattr n)) (emptyANet .sc)) = a1 at n1 n2 n3 n4 n5 n6 ⊢
+  simp only [emptyANet, emptyNet, List.nil_append] at n1 n2 n3 n4 n5
+  have hk : (({ a := a1, uid := 0, faces := [] } : SCState).a.net.edgeIds ++ src.net.edges.map (·.1)).Nodup := by
+    simp only [Net.edgeIds, n2, List.map_nil, List.nil_append]; exact w2
+  have hm : ∀ p ∈ src.net.edges, p.2.Nodup ∧ ∀ x ∈ p.2, x ∈ ({ a := a1, uid := 0, faces := [] } : SCState).a.net.nodes :=
+    fun p hp => ⟨(w3 p hp).1, fun x hx => by simp only; rw [n1]; exact (w3 p hp).2 x hx⟩
+  obtain ⟨s1, s2, s3, s4, s5, s6, s7, s8, s9, s10, s11⟩ := edgeStage_spec src.net.edges src.eattr
+    { a := a1, uid := 0, faces := [] } hk hm
+    (by intro i hi; simp only [n2, List.map_nil, List.not_mem_nil] at hi)
+  have hedges := edgeStage_kept src.net.edges src.eattr { a := a1, uid := 0, faces := [] } hk hm hsc.ne
+    (fun p _ => by simp only [n2, hasSimplex, List.any_nil])
+    (by
+      have hnd : src.net.edges.Pairwise (fun p q => p.1 ≠ q.1) := List.pairwise_map.mp w2
+      refine List.Pairwise.imp_of_mem ?_ hnd
+      intro p q hp hq hpq
+      cases h : sameSet p.2 q.2 with
+      | false => rfl
+      | true => exact absurd (congrArg Prod.fst (hsc.distinct p hp q hq h)) hpq)
+  generalize (src.net.edges.foldl (fun s p => scStep s p.1 p.2 (src.eattr p.1)) { a := a1, uid := 0, faces := [] }) = st
+    at s1 s2 s3 s4 s5 s6 s7 s8 s9 s10 s11 hedges ⊢
+  simp only [n2, List.not_mem_nil, false_or, List.nil_append] at s2 s5 s6 hedges
+  have hface : ∀ f ∈ st.faces, ∃ p ∈ src.net.edges, f ∈ subfaces p.2 := by
+    intro f hf
+    obtain ⟨q, hq, hfq⟩ := s6 f hf
+    exact ⟨q, (s2 q hq).1, hfq⟩
+  obtain ⟨j1, j2, j3, j4, j5, j6, j7⟩ := faceFold_spec st.faces st.a st.uid s7
+    (fun f hf x hx => by
+      obtain ⟨p, hp, hfp⟩ := hface f hf
+      rw [mem_subfaces] at hfp
+      rw [s8]; simp only; rw [n1]
+      exact (w3 p hp).2 x (hfp.1.subset hx))
+    (fun f hf => by
+      obtain ⟨p, hp, hfp⟩ := hface f hf
+      rw [mem_subfaces] at hfp
+      exact List.Nodup.sublist hfp.1 (w3 p hp).1)
+  obtain ⟨extra, hx⟩ := faceFold_prefix st.faces (st.a, st.uid)
+  have hnoop : SCClosed src.net → st.faces.foldl addFace (st.a, st.uid) = (st.a, st.uid) := fun hcl =>
+    faceFold_noop st.faces (st.a, st.uid) (fun f hf => by
+      obtain ⟨p, hp, hfp⟩ := hface f hf
+      simp only [hedges]; exact hcl p hp f hfp)
+  generalize (st.faces.foldl addFace (st.a, st.uid)) = r at j1 j2 j3 j4 j5 j6 j7 hx hnoop ⊢
+  refine ⟨⟨extra, by show r.1.net.edges = _; rw [hx]; simp only [hedges]⟩, ?_, ?_⟩
+  · intro e he
+    show r.1.eattr e = _
+    have he' : e ∈ st.a.net.edgeIds := by unfold Net.edgeIds; rw [hedges]; exact he
+    rw [j7 e he']
+    unfold Net.edgeIds at he; rw [List.mem_map] at he
+    obtain ⟨p, hp, rfl⟩ := he
+    rw [(s2 p (by rw [hedges]; exact hp)).2]
+    exact attrs_update_nil (we p.1 (by unfold Net.edgeIds; rw [List.mem_map]; exact ⟨p, hp, rfl⟩))
+  · intro hcl
+    show r.1.net.edges = _
+    rw [hnoop hcl]; exact hedges
+
 theorem mem_toBipartiteEdgelist (h : Net) (n e : PyId) : (n, e) ∈ toBipartiteEdgelist h ↔ Inc h n e := by
   unfold toBipartiteEdgelist Inc
   simp only [List.mem_flatMap, List.mem_map, Prod.mk.injEq]
@@ -1800,6 +2039,23 @@ theorem fromBipartiteGraphDi_inc {G : BGraph} {r : DiNet} (hr : fromBipartiteGra
     · refine ⟨(e, n), hp, ?_⟩
       have : ¬ n ∈ edgeVerts G := (vertex_dichotomy hw hf (nodeVert_is_vertex G hn)).mp hn
       simp [orientDi, this]
+
+theorem fromBipartiteGraphDi_nodes {G : BGraph} {r : DiNet} (hr : fromBipartiteGraphDi G = .ok r) (hw : GWF G) (n : PyId) :
+    n ∈ r.nodes ↔ n ∈ nodeVerts G := by
+  constructor
+  · intro hn
+    obtain ⟨hf, hb, rfl⟩ := fromBipartiteGraphDi_eq hr
+    rw [mem_nodes_dLinkAll, mem_nodes_dAddNodes] at hn
+    rcases hn with (hn | hn) | ⟨e, d, hn⟩
+    · simp [emptyDiNet] at hn
+    · exact hn
+    · have : DInc (dLinkAll (G.edges.map (orientDi (edgeVerts G))) (dAddNodes (nodeVerts G) emptyDiNet)) n e d := by
+        rw [dInc_dLinkAll]; exact Or.inr hn
+      exact ((fromBipartiteGraphDi_inc hr hw n e d).mp this).1
+  · intro hn
+    obtain ⟨hf, hb, rfl⟩ := fromBipartiteGraphDi_eq hr
+    rw [mem_nodes_dLinkAll, mem_nodes_dAddNodes]
+    exact Or.inl (Or.inr hn)
 
 theorem mem_verts_toBGDi (h : DiNet) (x : PyId) (f : Option Int) :
     (x, f) ∈ (toBipartiteGraphDi h).G.verts ↔
@@ -2122,6 +2378,29 @@ theorem bipartiteEdgelistDi_labels (h : DiNet) (hw : DWF h) :
 theorem hifDNodeStep_eq (a : ADiNet) (n : PyId) (av : Attrs) :
     (if n ∈ a.net.nodes then dASetNodeAttr a n av else dAAddNode a n av) = dAAddNode a n av := by
   unfold dASetNodeAttr dAAddNode; split <;> rfl
+
+/-- directed analogue of `hifNodeRec_eq` -/
+theorem dHifNodeRec_eq (a : ADiNet) (n : PyId) (av : Attrs) : dHifNodeRec a n av = dAAddNode a n av := by
+  unfold dHifNodeRec
+  split
+  · rename_i hn; unfold dASetNodeAttr dAAddNode; simp only [hn, if_true]
+  · rename_i hn
+    unfold dASetNodeAttr dAAddNode
+    simp only [hn, if_false, dAddNode, mem_ins, true_or, if_true, upd_apply, attrs_update_nil_right, upd_upd]
+
+/-- directed analogue of `hifEdgeRec_eq` -/
+theorem dHifEdgeRec_eq (a : ADiNet) (e : PyId) (av : Attrs) :
+    dHifEdgeRec a e av = if e ∈ dEdgeIds a.net then dASetEdgeAttr a e av else dAAddEdge a e [] [] av := by
+  unfold dHifEdgeRec
+  split
+  · rfl
+  · rename_i he
+    have h1 : e ∈ dEdgeIds (dAddEdge a.net e [] []) := by
+      have he' := he
+      unfold dEdgeIds at he'
+      simp [dAddEdge, dEdgeIds, he']
+    unfold dASetEdgeAttr dAAddEdge
+    simp only [he, if_false, h1, if_true, upd_apply, attrs_update_nil_right, upd_upd]
 
 theorem dAAddNode_fresh (a : ADiNet) (n : PyId) (av : Attrs) (hn : n ∉ a.net.nodes) :
     dAAddNode a n av = { a with net := { nodes := a.net.nodes ++ [n], edges := a.net.edges },
